@@ -50,6 +50,10 @@ type pRoot struct {
 	fn   *ssa.Function // rkParam
 	idx  int           // rkParam
 	deep bool          // rkParam / rkGlobal: memory loaded (at any depth) from the root object
+	// one: memory reached by EXACTLY ONE load from the root object / its field (the array behind a slice-valued
+	// field, the object behind a pointer-valued field); a further load makes it deep.  Lets a helper object that is
+	// fresh in the caller (builder, work list) be told from the older objects its elements point to.
+	one bool
 	// field: first-level struct field of the root object through which the memory is addressed (deep=false) or was
 	// reached (deep=true); noField when the whole object / an element is meant
 	field int
@@ -164,6 +168,26 @@ func provEngineFor(p *core.Program) *provEngine {
 		errorT:   types.Universe.Lookup("error").Type(),
 	}
 	e.fns = p.ModuleFunctions()
+	// synthetic wrappers of module functions (method-expression thunks, bound-method closures) that call sites
+	// through function values resolve to: analysed like any other function
+	{
+		have := map[*ssa.Function]bool{}
+		for _, fn := range e.fns {
+			have[fn] = true
+		}
+		for _, n := range e.g.Nodes {
+			if n == nil || n.Func == nil {
+				continue
+			}
+			for _, ed := range n.Out {
+				cf := ed.Callee.Func
+				if cf != nil && !have[cf] && isWrapper(cf) && cf.Blocks != nil && core.InModule(cf) && core.InModule(n.Func) {
+					have[cf] = true
+					e.fns = append(e.fns, cf)
+				}
+			}
+		}
+	}
 	for _, fn := range e.fns {
 		e.analysed[fn] = true
 		n := fn.Signature.Results().Len()
@@ -373,7 +397,11 @@ func (e *provEngine) loadOf(s rootSet, out rootSet) {
 		case rkLocal:
 			e.contentsOf(r.obj, r.field, out)
 		case rkParam, rkGlobal:
-			r.deep = true
+			if !r.deep && !r.one {
+				r.one = true
+			} else {
+				r.deep, r.one = true, false
+			}
 			out.add(r)
 		default:
 			out.add(r)
@@ -412,7 +440,7 @@ func (e *provEngine) deepOf(s rootSet, out rootSet) {
 		for r := range c {
 			out.add(r)
 			if (r.kind == rkParam || r.kind == rkGlobal) && !r.deep {
-				r.deep = true
+				r.deep, r.one = true, false
 				out.add(r)
 			}
 		}
@@ -429,7 +457,7 @@ func (e *provEngine) deepOf(s rootSet, out rootSet) {
 				addDeep(c)
 			}
 		case rkParam, rkGlobal:
-			r.deep = true
+			r.deep, r.one = true, false
 			out.add(r)
 		default:
 			out.add(r)
@@ -444,7 +472,7 @@ func s45_withField(s rootSet, f int) rootSet {
 	}
 	out := rootSet{}
 	for r := range s {
-		if (r.kind == rkLocal || r.kind == rkParam || r.kind == rkGlobal) && r.field == noField && !(r.deep) {
+		if (r.kind == rkLocal || r.kind == rkParam || r.kind == rkGlobal) && r.field == noField && !(r.deep) && !r.one {
 			r.field = f
 		}
 		out.add(r)
@@ -478,9 +506,12 @@ func (e *provEngine) subst(s rootSet, site ssa.CallInstruction, callee *ssa.Func
 				}
 				continue
 			}
-			if r.deep {
+			switch {
+			case r.deep:
 				e.deepOf(s45_withField(e.get(arg), r.field), out)
-			} else {
+			case r.one:
+				e.loadOf(s45_withField(e.get(arg), r.field), out)
+			default:
 				out.addAll(s45_withField(e.get(arg), r.field))
 			}
 			continue
@@ -678,6 +709,27 @@ func s45_isNilConst(v ssa.Value) bool {
 
 func (e *provEngine) callResult(call *ssa.Call, k int, t types.Type) rootSet {
 	out := rootSet{}
+	// standard-library slice helpers: what their result may alias is documented
+	if callee := call.Call.StaticCallee(); callee != nil {
+		o := callee
+		if oo := callee.Origin(); oo != nil {
+			o = oo
+		}
+		if o.Pkg != nil && o.Pkg.Pkg.Path() == "slices" && k == 0 {
+			switch o.Name() {
+			case "Clone", "Concat", "Repeat", "Collect", "Sorted", "SortedFunc", "AppendSeq":
+				out.add(pRoot{kind: rkLocal, obj: call, field: noField})
+				return out
+			case "Grow", "Insert", "Delete", "DeleteFunc", "Compact", "CompactFunc", "Clip", "Replace":
+				// the argument's array (possibly extended in place) or a new one
+				out.add(pRoot{kind: rkLocal, obj: call, field: noField})
+				if len(call.Call.Args) > 0 {
+					out.addAll(e.get(call.Call.Args[0]))
+				}
+				return out
+			}
+		}
+	}
 	for _, cf := range e.callees[call] {
 		if k < len(e.ret[cf]) {
 			e.subst(e.ret[cf][k], call, cf, out)
@@ -715,6 +767,15 @@ func (e *provEngine) eval(v ssa.Value) rootSet {
 	case *ssa.TypeAssert:
 		return e.get(x.X)
 	case *ssa.Field:
+		// a field of a struct VALUE that was loaded from memory: select the field at the address it was loaded from
+		// (struct values kept in slices / work lists stay field-sensitive)
+		if ld, ok := x.X.(*ssa.UnOp); ok && ld.Op == token.MUL {
+			if _, isAlloc := ld.X.(*ssa.Alloc); !isAlloc || !e.isSimpleCell(ld.X.(*ssa.Alloc)) {
+				out := rootSet{}
+				e.loadOf(s45_withField(e.get(ld.X), x.Field), out)
+				return out
+			}
+		}
 		return e.get(x.X)
 	case *ssa.Index:
 		return e.get(x.X)
@@ -836,7 +897,7 @@ func (e *provEngine) storeEffect(addr, val rootSet) {
 		case rkLocal:
 			e.growContents(r.obj, r.field, val)
 		case rkParam:
-			e.growPstore(pstoreKey{r.fn, r.idx, r.deep, r.field}, val)
+			e.growPstore(pstoreKey{r.fn, r.idx, r.deep || r.one, r.field}, val)
 		}
 	}
 }
@@ -852,6 +913,13 @@ func (e *provEngine) callEffects(site ssa.CallInstruction) {
 				e.loadOf(e.get(c.Args[1]), elems)
 			}
 		}
+		// elements that are struct values keep their fields apart: copy the contents of the argument arrays field by field
+		if sl, ok := types.Unalias(v.Type()).Underlying().(*types.Slice); ok && s45_isStruct(sl.Elem()) && len(c.Args) > 1 {
+			self := rootSet{pRoot{kind: rkLocal, obj: v, field: noField}: {}}
+			if e.copyFieldwise(self, e.get(c.Args[1])) && e.copyFieldwise(self, e.get(c.Args[0])) && e.copyFieldwise(e.get(c.Args[0]), e.get(c.Args[1])) {
+				return
+			}
+		}
 		old := rootSet{}
 		e.loadOf(e.get(c.Args[0]), old)
 		e.growContents(v, noField, elems)
@@ -860,6 +928,9 @@ func (e *provEngine) callEffects(site ssa.CallInstruction) {
 		return
 	case "copy":
 		if sl, ok := types.Unalias(c.Args[0].Type()).Underlying().(*types.Slice); ok && e.pointerful(sl.Elem()) {
+			if s45_isStruct(sl.Elem()) && e.copyFieldwise(e.get(c.Args[0]), e.get(c.Args[1])) {
+				return
+			}
 			src := rootSet{}
 			e.loadOf(e.get(c.Args[1]), src)
 			e.storeEffect(e.get(c.Args[0]), src)
@@ -899,7 +970,7 @@ func (e *provEngine) callEffects(site ssa.CallInstruction) {
 							}
 						}
 					case rkParam:
-						e.growPstore(pstoreKey{r.fn, r.idx, k.deep || r.deep, f}, t)
+						e.growPstore(pstoreKey{r.fn, r.idx, k.deep || r.deep || r.one, f}, t)
 					}
 				}
 			}
@@ -926,6 +997,9 @@ func (e *provEngine) solve() {
 					switch x := in.(type) {
 					case *ssa.Store:
 						if e.pointerful(x.Val.Type()) {
+							if ld, ok := x.Val.(*ssa.UnOp); ok && ld.Op == token.MUL && s45_isStruct(x.Val.Type()) && e.copyFieldwise(e.get(x.Addr), e.get(ld.X)) {
+								break
+							}
 							e.storeEffect(e.get(x.Addr), e.get(x.Val))
 						}
 					case *ssa.MapUpdate:
@@ -1171,11 +1245,13 @@ func (e *provEngine) rootString(r pRoot) string {
 		s := fmt.Sprintf("parameter %s%s of %s", s45_paramName(r.fn, r.idx), fl, core.FuncKey(r.fn))
 		if r.deep {
 			s = "memory loaded from " + s
+		} else if r.one {
+			s = "the memory " + s + " points to"
 		}
 		return s
 	case rkGlobal:
 		s := "package variable " + r.obj.Name()
-		if r.deep {
+		if r.deep || r.one {
 			s = "memory loaded from " + s
 		}
 		return s
@@ -1186,4 +1262,44 @@ func (e *provEngine) rootString(r pRoot) string {
 // callersOfFn returns the call sites that may call fn, in a stable order.
 func (e *provEngine) callersOfFn(fn *ssa.Function) []callerSite {
 	return e.callers[fn]
+}
+
+// isWrapper: go/ssa's synthetic forwarding functions (method-expression thunks, bound-method closures, interface
+// method wrappers) - not package initialisers or generic instances.
+func isWrapper(fn *ssa.Function) bool {
+	return strings.HasPrefix(fn.Synthetic, "thunk for") || strings.HasPrefix(fn.Synthetic, "bound method wrapper") || strings.HasPrefix(fn.Synthetic, "wrapper for")
+}
+
+func s45_isStruct(t types.Type) bool {
+	_, ok := types.Unalias(t).Underlying().(*types.Struct)
+	return ok
+}
+
+// copyFieldwise models `*dst = *src` for struct-typed memory (also element-wise for arrays of structs): what each
+// field of the source objects holds flows into the same field of the destination objects.  It reports false (and
+// does nothing) when a root is not a plain local object, so that the caller falls back to the merged transfer.
+func (e *provEngine) copyFieldwise(dst, src rootSet) bool {
+	for r := range dst {
+		if r.kind != rkLocal || r.field != noField {
+			return false
+		}
+	}
+	for r := range src {
+		if r.kind != rkLocal || r.field != noField {
+			return false
+		}
+	}
+	for s := range src {
+		keys := append([]int{noField}, e.fields[s.obj]...)
+		for _, f := range keys {
+			vals := e.contents[objField{s.obj, f}]
+			if len(vals) == 0 {
+				continue
+			}
+			for d := range dst {
+				e.growContents(d.obj, f, vals)
+			}
+		}
+	}
+	return true
 }
